@@ -1,5 +1,8 @@
 (* C02 — quadrature is exact on the polynomial space the grid declares.  Statements only. *)
-From TV Require Import Common.Prelude Proofs.CombinationProofs.
+From TV Require Import Common.Prelude Proofs.CombinationProofs Proofs.LagrangeExact Proofs.InterpQuadExact Proofs.SparseQuadExact.
+From Coq Require Import QArith Qcanon.
+Local Close Scope Qc_scope.
+Local Close Scope Q_scope.
 From Coq Require Import Ring ZArith.
 
 Section AnyRing.
@@ -54,5 +57,25 @@ Proof.
   vm_compute. repeat split; try reflexivity. discriminate.
 Qed.
 
+(* UNCONDITIONAL for INTERPOLATORY rules (Clenshaw-Curtis, Fejer, Leja and R-Leja sequences, Chebyshev, ...: weights = moments of
+   the Lagrange basis polynomials of the nodes) and ANY moment functional mu (any weight function): the one-dimensional rule with
+   n pairwise distinct nodes integrates every polynomial of degree < n exactly (coefficient-level uniqueness of polynomials), hence
+   the sparse rule over any lower set integrates every monomial of the declared space exactly.  (Gauss rules, exact to degree
+   2n-1, are NOT covered by this theorem: for them the one-dimensional exactness stays the hypothesis of c02_combination_exact.) *)
+Theorem c02_interpolatory_rule_exact_1d : forall (mu : nat -> Qc) (nodes : list Qc), NoDup nodes -> forall k, (k < length nodes)%nat ->
+  qsum (map (fun i => Qcmult (nth i (weights mu nodes) (Q2Qc 0)) (Qcpower (nth i nodes (Q2Qc 0)) k)) (seq 0 (length nodes))) = mu k.
+Proof. exact interp_quad_exact. Qed.
+
+Theorem c02_sparse_interpolatory_quadrature_exact_unbounded :
+  forall (nodes : nat -> nat -> list Qc) (m : nat -> nat),
+    (forall j l, NoDup (nodes j l)) -> (forall j l, length (nodes j l) = S (m l)) -> (forall l, m l <= m (S l)) ->
+  forall (mu : nat -> nat -> Qc) d Theta, NoDup Theta -> (forall t, In t Theta -> length t = d) -> lower Theta ->
+  forall k s, In s Theta -> length k = d -> Forall2 (fun kj sj => kj <= m sj) k s ->
+    sumf Qc (Q2Qc 0) Qcplus Theta (fun t => dprod Qc (Q2Qc 1) Qcmult Qcminus (quad_u nodes mu) 0 t k)
+    = iprod Qc (Q2Qc 1) Qcmult (quad_I mu) 0 k.
+Proof. exact sparse_interp_quadrature_exact. Qed.
+
 Print Assumptions c02_combination_exact.
 Print Assumptions c02_weights_sum_to_measure.
+Print Assumptions c02_interpolatory_rule_exact_1d.
+Print Assumptions c02_sparse_interpolatory_quadrature_exact_unbounded.
